@@ -214,9 +214,10 @@ PROPS = {
                      "the oracle's grid (4096 points quick, 16384 thorough, each local minimum refined) finds the global minimum to well below 1e-9 m"],
     ),
     "C03": dict(
-        lean_modules=["AlphaG.Props.C03", "AlphaG.Props.C03Injective", "AlphaG.Lemmas.CrcOrbit", "AlphaG.Lemmas.Crc", "AlphaG.Model.Crc"],
+        lean_modules=["AlphaG.Props.C03", "AlphaG.Props.C03Injective", "AlphaG.Props.C03Converse", "AlphaG.Lemmas.CrcOrbit", "AlphaG.Lemmas.Crc", "AlphaG.Model.Crc"],
         required_theorems=["AlphaG.Chunk.chunk_accept_iff", "AlphaG.Chunk.chunk_fields", "AlphaG.Chunk.chunk_roundtrip",
                            "AlphaG.Chunk.chunk_decode_injective", "AlphaG.Chunk.chunk_encode_accepted",
+                           "AlphaG.Chunk.chunk_encode_decode", "AlphaG.Chunk.chunk_decoded_wf",
                            "AlphaG.Chunk.chunk_total", "AlphaG.Chunk.chunk_accessors_total",
                            "AlphaG.Chunk.chunk_header_crc32c", "AlphaG.Chunk.chunk_payload_crc32c",
                            "AlphaG.Chunk.detect_odd", "AlphaG.Chunk.detect_burst32", "AlphaG.Chunk.detect_two",
